@@ -27,7 +27,7 @@ Require Import Hdl21.Base.PyInt Hdl21.Spec.PySlice Hdl21.Model.Slice Hdl21.Model
                Hdl21.Spec.Nets Hdl21.Spec.WfDesign Hdl21.Base.Package Hdl21.Base.PrimTable Hdl21.Spec.PkgWf Hdl21.Spec.C01ENets
                Hdl21.Model.C04ConnOps Hdl21.Spec.C04LastWrite Hdl21.Model.C04Groups
                Hdl21.Proofs.FunGraph Hdl21.Model.C01EElab Hdl21.Model.C01FElab Hdl21.Spec.C01FNets Hdl21.Proofs.C01FProofsEnd
-               Hdl21.Model.C04EBridge Hdl21.Model.C04EPipe Hdl21.Proofs.C04EProofs Hdl21.Proofs.C04EEnd Hdl21.Proofs.C04EShape.
+               Hdl21.Model.C04EBridge Hdl21.Model.C04EPipe Hdl21.Proofs.C04EProofs Hdl21.Proofs.C04EEnd Hdl21.Proofs.C04EShape Hdl21.Model.C04EOrd Hdl21.Proofs.C04EOrd.
 Open Scope Z_scope.
 
 (* 1. What the elaborator is handed after ANY history is the design of the FINAL mapping: state_design reads `conns`,
@@ -133,6 +133,51 @@ Theorem C04E_no_trace xi u ops1 ops2 :
 Proof. exact (no_trace xi u ops1 ops2). Qed.
 Print Assumptions C04E_no_trace.
 
+(* 5. THE ORDER OF `conns` LEAVES NO ELECTRICAL TRACE EITHER.  design_of lists an instance's connections in slot order; the
+      elaborator is handed them in the order of the `conns` dict, which depends on the history (a new key goes last, a replaced
+      key keeps its place).  Model/C04EOrd.v:state_design_ord is the design in THAT order (what `conns` literally holds), and
+      pkg_of_state_ord the pipeline model's package for it: order and names of invented signals, and the order of an instance's
+      connections in the package, follow the history.  The one-step map of Spec/Nets.v is the same on ALL nodes ... *)
+Theorem C04E_order_free_nets u l x y : u_ok u = true -> wf_design (design_ord u l) = Ok tt ->
+  (same_net (design_ord u l) x y <-> same_net (design_of u (fun q => lookup q l)) x y).
+Proof. exact (same_net_ord u l x y). Qed.
+Print Assumptions C04E_order_free_nets.
+
+(* ... so END TO END holds for the design in dict order as well: for EVERY history whose state gives a complete valid
+   design, the nets of the package exported from state_design_ord u (run ops) are the nets Spec/Nets.v gives the design of the
+   FINAL mapping.  (_partial as theorem 3; the order in which references were FETCHED is still not carried: Base/Design.v
+   derives it from the order of the connections.) *)
+Theorem C04E_end_to_end_ordered_partial xi u ops p ts :
+  u_ok u = true ->
+  wf_design (state_design_ord u (run ops)) = Ok tt -> frag_ok2 (state_design_ord u (run ops)) = true ->
+  xinfo_ok xi (state_design_ord u (run ops)) = true ->
+  pkg_of_state_ord xi u (run ops) = Ok p -> terminals (state_design_ord u (run ops)) = Ok ts ->
+  let dord := state_design_ord u (run ops) in
+  exists tn, top_name dord = Ok tn /\
+    (forall t1 t2 dev1 dev2, In (t1, dev1) ts -> In (t2, dev2) ts ->
+       (same_net_pkg p tn (term_map2 xi dord t1) (term_map2 xi dord t2) <-> same_net (design_of u (fun q => final q ops)) t1 t2)) /\
+    (forall t dev, In (t, dev) ts ->
+       exists pd, design_of_pkg prims_ext p tn = Ok pd /\ valid pd (term_map2 xi dord t) /\ dev_at pd (term_map2 xi dord t) = Ok dev).
+Proof. exact (end_to_end_ord xi u ops p ts). Qed.
+Print Assumptions C04E_end_to_end_ordered_partial.
+
+(* ... and NO TRACE at the level of nets: two histories with the same final mapping may export packages that differ in the
+   order / names of what the passes invent, but on every pair of common terminals the two packages have the same nets *)
+Theorem C04E_no_trace_ordered_partial xi u ops1 ops2 p1 p2 ts1 ts2 :
+  u_ok u = true -> (forall q, In q (upids u) -> final q ops1 = final q ops2) ->
+  wf_design (state_design_ord u (run ops1)) = Ok tt -> frag_ok2 (state_design_ord u (run ops1)) = true ->
+  xinfo_ok xi (state_design_ord u (run ops1)) = true ->
+  wf_design (state_design_ord u (run ops2)) = Ok tt -> frag_ok2 (state_design_ord u (run ops2)) = true ->
+  xinfo_ok xi (state_design_ord u (run ops2)) = true ->
+  pkg_of_state_ord xi u (run ops1) = Ok p1 -> pkg_of_state_ord xi u (run ops2) = Ok p2 ->
+  terminals (state_design_ord u (run ops1)) = Ok ts1 -> terminals (state_design_ord u (run ops2)) = Ok ts2 ->
+  exists tn1 tn2, top_name (state_design_ord u (run ops1)) = Ok tn1 /\ top_name (state_design_ord u (run ops2)) = Ok tn2 /\
+    forall t1 t2 dev1 dev2 dev1' dev2', In (t1, dev1) ts1 -> In (t2, dev2) ts1 -> In (t1, dev1') ts2 -> In (t2, dev2') ts2 ->
+      (same_net_pkg p1 tn1 (term_map2 xi (state_design_ord u (run ops1)) t1) (term_map2 xi (state_design_ord u (run ops1)) t2) <->
+       same_net_pkg p2 tn2 (term_map2 xi (state_design_ord u (run ops2)) t1) (term_map2 xi (state_design_ord u (run ops2)) t2)).
+Proof. exact (no_trace_ord xi u ops1 ops2 p1 p2 ts1 ts2). Qed.
+Print Assumptions C04E_no_trace_ordered_partial.
+
 (* ------------------------------------------------------------------------------------------------ non-vacuity
    Leaf(a, b: 2 bits, a resistor across the bits of each); Top with s0, s1 (2), wide (4) and three Leaf instances. *)
 Definition ex_res : target := TDev "vlsir.primitives/resistor{r=pre:UNIT:i1;}" [("p", 1); ("n", 1)].
@@ -229,3 +274,19 @@ Example C04E_ex_groups :
   map (fun q => key_of ex_u q 0) [(0, 0); (0, 1); (2, 0)] = [Some ("i0", "a"); Some ("i0", "b"); Some ("i2", "a")] /\
   back_of (CRef 0 1) (st_back (run ex_ops2)) = [] /\ back_of (CRef 1 0) (st_back (run ex_ops2)) = [(2, 0)].
 Proof. vm_compute. repeat split. Qed.
+
+(* in dict order the two histories give DIFFERENT designs and DIFFERENT packages (i0's connections are written b, a by the
+   messy history), both inside the hypotheses of theorem 5, with the same terminals *)
+Example C04E_ex_ordered :
+  let d1 := state_design_ord ex_u (run ex_ops1) in let d2 := state_design_ord ex_u (run ex_ops2) in
+  wf_design d1 = Ok tt /\ frag_ok2 d1 = true /\ xinfo_ok ex_xi d1 = true /\
+  wf_design d2 = Ok tt /\ frag_ok2 d2 = true /\ xinfo_ok ex_xi d2 = true /\
+  terminals d1 = terminals d2 /\
+  (exists p1 p2 t1 t2, pkg_of_state_ord ex_xi ex_u (run ex_ops1) = Ok p1 /\ pkg_of_state_ord ex_xi ex_u (run ex_ops2) = Ok p2 /\
+     nth_error (pk_mods p1) 1 = Some t1 /\ nth_error (pk_mods p2) 1 = Some t2 /\
+     map (fun i => map fst (pi_conns i)) (pm_insts t1) = [["a"; "b"]; ["a"; "b"]; ["a"; "b"]] /\
+     map (fun i => map fst (pi_conns i)) (pm_insts t2) = [["b"; "a"]; ["b"; "a"]; ["a"; "b"]]).
+Proof.
+  cbv zeta. repeat split; try (vm_compute; reflexivity).
+  vm_compute. do 4 eexists. repeat split; reflexivity.
+Qed.
